@@ -3,7 +3,8 @@
    ascii and string stay the Coq inductives. No Extract Constant. *)
 From Coq Require Import Extraction ExtrOcamlBasic.
 From TS Require Import Model.Str Model.Outcome Model.Unicode Model.Rename Spec.SerdeCase Spec.C16Spec
-  Model.Types Model.TopsortAlgo Model.Topsort Spec.C11Spec Model.Integer Spec.JsSafe Model.Syntax Model.Attrs Model.TargetOs Spec.TargetOsRule.
+  Model.Types Model.TopsortAlgo Model.Topsort Spec.C11Spec Model.Integer Spec.JsSafe Model.Syntax Model.Attrs Model.TargetOs Spec.TargetOsRule
+  Model.Writer Spec.C17Spec.
 Extraction Language OCaml.
 Set Extraction AccessOpaque.
 Extraction "model.ml"
@@ -22,4 +23,7 @@ Extraction "model.ml"
   TopsortAlgo.toposort_impl TopsortAlgo.sort_by_indices Topsort.topsort Topsort.build_dag
   C11Spec.good_C11 C11Spec.known_C11 C11Spec.acyclic C11Spec.perm_ok C11Spec.topo_ok
   Types.parse_ty Types.rtype_display Types.item_id
-  TargetOs.accept_target_os TargetOsRule.os_rule TargetOsRule.cfg_parsable.
+  TargetOs.accept_target_os TargetOsRule.os_rule TargetOsRule.cfg_parsable
+  Writer.run_full Writer.run_trace Writer.run_history Writer.content Writer.mtime_of
+  C17Spec.succeeds C17Spec.responsible C17Spec.may_touch C17Spec.rewritten_each_run C17Spec.known_C17
+  C17Spec.good_rerun C17Spec.good_fresh C17Spec.nonempty_outputs C17Spec.dom_C17.
